@@ -45,7 +45,8 @@ Definition kind_of (i : Z) (o : op) : kind :=
      5 nothing but a decision or a reset of this link releases the latch
      6 nothing but a decision or a reset of this link releases the pull
      7 a reset of the link (soft or full) leaves no delivery proof behind: "has never produced
-       delivery proof" is judged since the link's last reset *)
+       delivery proof" is judged since the link's last reset
+     8 a cumulative SRT ACK does not move the proof stamp (see [cum_clause]) *)
 Definition mon_step (rs : option Z) (k : kind) (pre post : link) : option Z * N :=
   let lat0 := latched pre in
   let lat1 := latched post in
@@ -73,6 +74,12 @@ Definition mon_step (rs : option Z) (k : kind) (pre post : link) : option Z * N 
                                  (6%N, negb (g_pulled (lg pre)) || g_pulled (lg post))])
   end.
 
+(** clause 8: a cumulative SRT ACK (it arrives via any link and only drains the backlog) is not
+    delivery proof of THIS link: the proof stamp does not move on it *)
+Definition cum_on (i : Z) (o : op) : bool := match o with OSrtAck j _ => j =? i | _ => false end.
+Definition cum_clause (i : nat) (o : op) (pre post : link) (cl : N) : N :=
+  if (cl =? 0)%N && cum_on (Z.of_nat i) o && negb (a_proof (la post) =? a_proof (la pre)) then 8%N else cl.
+
 (** run the monitor for link [i] over a trace: (clause, step) of the first failure *)
 Fixpoint mon_link (i : nat) (rs : option Z) (tr : list tstep) (k : N) : N * N :=
   match tr with
@@ -80,7 +87,8 @@ Fixpoint mon_link (i : nat) (rs : option Z) (tr : list tstep) (k : N) : N * N :=
   | t :: rest =>
     match nth_error (t_pre t) i, nth_error (t_post t) i with
     | Some pre, Some post =>
-      let '(rs', cl) := mon_step rs (kind_of (Z.of_nat i) (t_op t)) pre post in
+      let '(rs', cl0) := mon_step rs (kind_of (Z.of_nat i) (t_op t)) pre post in
+      let cl := cum_clause i (t_op t) pre post cl0 in
       if (cl =? 0)%N then mon_link i rs' rest (k + 1)%N else (cl, (k + 1)%N)
     | _, _ => mon_link i rs rest (k + 1)%N
     end
